@@ -10,6 +10,9 @@
 (*  parse    {bytes, outcome}: ProguardCache::parse(bytes) returned        *)
 (*           outcome (ok / error kind); the kind must equal                *)
 (*           CacheFormat!ParseOutcome.  Used for prefixes and header edits.*)
+(*  torn_at  {residue, cut, accepted, answers_like_full}: a strict prefix   *)
+(*           at a mis-aligned (4 mod 8) address is rejected or answers the  *)
+(*           probe queries like the full file at that address.             *)
 (*  again    {id, bytes_same, len}: a repeated write (other process /      *)
 (*           thread) gave identical bytes (C14) -- the comparison of raw   *)
 (*           bytes is done where they are produced, the event carries the  *)
@@ -47,8 +50,14 @@ SameBigConforms(ev) ==
   /\ Len(ev.lens) >= 4 /\ Len(ev.digests) = Len(ev.lens)
   /\ \A k \in 1..Len(ev.lens) : ev.lens[k] = ev.lens[1] /\ ev.digests[k] = ev.digests[1]
 
+\* a strict prefix of a file at an address 4 modulo 8: rejected without a panic, or answering like the full file there
+TornAtConforms(ev) ==
+  /\ ev.accepted \/ ev.outcome.err # "panic"
+  /\ ev.accepted => ev.answers_like_full
+
 Conforms(ev) ==
   CASE ev.t = "samebig" -> SameBigConforms(ev)
+    [] ev.t = "torn_at" -> TornAtConforms(ev)
     [] ev.t = "written" -> WrittenConforms(ev)
     [] ev.t = "parse" -> ParseConforms(ev)
     [] ev.t = "same" -> SameConforms(ev)
